@@ -113,13 +113,14 @@ Qed.
 Lemma build_log_leaf_inv s ts e leaf : ts_ok ts ->
   build_log_leaf H s (embed_leaf ts e []) = Ok leaf ->
   entry_ok e /\ chain_in_range (map c_der (s_rest s)) /\
-  leaf = {| l_value := enc_leaf ts e []; l_extra := enc_extra_data (s_pre s) (s_leaf s) (map c_der (s_rest s)); l_id := H (s_leaf s) |}.
+  leaf = {| l_value := enc_leaf ts e []; l_extra := enc_extra_data (s_pre s) (s_leaf s) (map c_der (s_rest s)); l_id := H (s_leaf s) |} /\
+  extra_data s = Ok (enc_extra_data (s_pre s) (s_leaf s) (map c_der (s_rest s))).
 Proof.
   intros Hts. unfold build_log_leaf.
   destruct (marshal gen_MerkleTreeLeaf None (embed_leaf ts e [])) as [value| | | |] eqn:Ev; try discriminate.
   apply (leaf_marshal_inv ts e [] value Hts) in Ev. destruct Ev as (He & _ & ->).
   destruct (extra_data s) as [extra| | | |] eqn:Ex; try discriminate.
-  apply extra_data_inv in Ex. destruct Ex as [Hc ->]. intros E; inversion E. auto.
+  pose proof (extra_data_inv s extra Ex) as [Hc ->]. intros E; inversion E. auto.
 Qed.
 
 (* stored / returned leaves: TLS encodings of in-range entries *)
@@ -163,7 +164,8 @@ Record issued_facts (st st' : state) (s : submission) (r : issued) (e : entry) (
   f_salg : i_sig_alg r = sig_alg_of (k_kind cfg);
   f_sct_bytes : i_sct_bytes r = enc_sct (i_id r) (i_ts r) (i_ext r) (i_hash_alg r) (i_sig_alg r) (i_sig r);
   f_sig_len : len (i_sig r) <= 65535;
-  f_guard : guard (embed_leaf ts0 e0 []) (embed_leaf (time_millis (s_now s)) e []) = true
+  f_guard : guard (embed_leaf ts0 e0 []) (embed_leaf (time_millis (s_now s)) e []) = true;
+  f_extra : extra_data s = Ok (enc_extra_data (s_pre s) (s_leaf s) (map c_der (s_rest s)))
 }.
 
 Definition store_wf (st : store) : Prop := forall id l, find_leaf id st = Some l -> wf_leaf l.
@@ -185,7 +187,7 @@ Proof.
   destruct (leaf_from_chain_ok _ _ _ El) as (e & Hse & ->).
   destruct (build_log_leaf H s (embed_leaf ms e [])) as [leaf| | | |] eqn:Eb.
   2-5: cbn; intros E; inversion E.
-  destruct (build_log_leaf_inv s ms e leaf (ts_ok_millis _) Eb) as (He & Hc & Hleaf).
+  destruct (build_log_leaf_inv s ms e leaf (ts_ok_millis _) Eb) as (He & Hc & Hleaf & Hextra).
   assert (Hbl : leaf = built_leaf s e) by (rewrite Hleaf; reflexivity). clear Hleaf. subst leaf.
   destruct (queue_leaf (st_store st) (built_leaf s e)) as [[store' ret] dup] eqn:Eq.
   (* the returned leaf is well formed *)
@@ -220,7 +222,7 @@ Proof.
   destruct (leaf_from_chain_ok _ _ _ El) as (e & Hse & ->).
   destruct (build_log_leaf H s (embed_leaf ms e [])) as [leaf| | | |] eqn:Eb.
   2-5: intros E; inversion E; left; reflexivity.
-  destruct (build_log_leaf_inv s ms e leaf (ts_ok_millis _) Eb) as (He & Hc & Hleaf).
+  destruct (build_log_leaf_inv s ms e leaf (ts_ok_millis _) Eb) as (He & Hc & Hleaf & Hextra).
   assert (Hbl : leaf = built_leaf s e) by (rewrite Hleaf; reflexivity). clear Hleaf. subst leaf.
   destruct (queue_leaf (st_store st) (built_leaf s e)) as [[store' ret] dup] eqn:Eq.
   assert (Hst : st_store st' = store' -> st_store st' = st_store st \/
@@ -293,7 +295,7 @@ Proof.
   destruct (build_log_leaf_good s (embed_leaf ms e [])) as [G3 G4].
   destruct (build_log_leaf H s (embed_leaf ms e [])) as [leaf| | | |] eqn:Eb; try contradiction.
   2-3: cbn; intros E; inversion E; discriminate.
-  destruct (build_log_leaf_inv s ms e leaf (ts_ok_millis _) Eb) as (He & Hc & Hleaf).
+  destruct (build_log_leaf_inv s ms e leaf (ts_ok_millis _) Eb) as (He & Hc & Hleaf & Hextra).
   assert (Hbl : leaf = built_leaf s e) by (rewrite Hleaf; reflexivity). clear Hleaf. subst leaf.
   destruct (queue_leaf (st_store st) (built_leaf s e)) as [[store' ret] dup] eqn:Eq.
   assert (Hret : wf_leaf ret).
